@@ -100,7 +100,9 @@ def replay(scn):
         for k, a in enumerate(i["arrs"]):
             kinds = [(("i" if k % 2 == 0 else "f") if mixed else variant)] * len(a["dims"])
             objs.append(A.gamma(a, codec, kinds))
-        for form in ("list", "tuple"):
+        for form in ("list", "tuple", "datasets"):
+            if form == "datasets" and variant not in ("i", "s"):
+                continue
             before = [A.snapshot(o) for o in objs]
             kw = dict(join=i["join"], sort=i["sort"])
             if i["axis"]:
@@ -108,7 +110,15 @@ def replay(scn):
             calls += 1
             what = None
             try:
-                res = A.da.align(objs if form == "list" else tuple(objs), **kw)
+                if form == "datasets":        # align() also accepts Datasets: one variable each
+                    dss = []
+                    for o in objs:
+                        d_ = A.Dataset()
+                        d_["v"] = o
+                        dss.append(d_)
+                    res = [r["v"] for r in A.da.align(dss, **kw)]
+                else:
+                    res = A.da.align(objs if form == "list" else tuple(objs), **kw)
             except Exception as e:  # noqa
                 what = "raised %s: %s" % (type(e).__name__, str(e)[:200])
                 res = None
@@ -135,7 +145,9 @@ def replay(scn):
                         what = "output %d %s" % (k, why)
                         break
                     ee = dict(e, kinds=nact["kinds"])
-                    w = A.compare(ee, nact, free_kinds=True, dtype_any=[e["dtype"]] + (["f"] if mixed or True else []))
+                    # (axis-level metadata through Dataset operations is not covered by any property)
+                    w = A.compare(ee, nact, free_kinds=True, dtype_any=[e["dtype"]] + (["f"] if mixed or True else []),
+                                  check_aattrs=(form != "datasets"), check_attrs=(form != "datasets"))
                     if w and not (w.startswith("dtype") and False):
                         what = "output %d %s" % (k, w)
                         break
